@@ -515,7 +515,9 @@ func roundTrip(c *fw.Ctx, r *rng.R, id string, i int) bool {
 		{Type: typ, Name: "w", Origin: &gen.Call{Name: "meta", Args: []gen.Expr{gen.A(acct), gen.S(key)}}},
 		{Type: typ, Name: "x"},
 		{Type: "string", Name: "d", Origin: &gen.Call{Name: "meta", Args: []gen.Expr{gen.A(acct2), gen.S(key2)}}},
+		{Type: "string", Name: "s", Origin: &gen.Call{Name: "meta", Args: []gen.Expr{gen.A(acct), gen.S(key + "_sibling")}}},
 	}, Stmts: []gen.Stmt{
+		&gen.Call{Name: "set_tx_meta", Args: []gen.Expr{gen.S("from_sibling_key"), gen.V("s")}},
 		&gen.Call{Name: "set_tx_meta", Args: []gen.Expr{gen.S("from_other_entry"), gen.V("d")}},
 		&gen.Call{Name: "set_tx_meta", Args: []gen.Expr{gen.S("from_meta"), gen.V("w")}},
 		&gen.Call{Name: "set_tx_meta", Args: []gen.Expr{gen.S("from_var"), gen.V("x")}},
@@ -531,6 +533,13 @@ func roundTrip(c *fw.Ctx, r *rng.R, id string, i int) bool {
 		cs2.Meta[acct2] = map[string]string{}
 	}
 	cs2.Meta[acct2][key2] = decoy
+	cs2.Meta[acct][key+"_sibling"] = "sibling value"
+	if r.Chance(1, 3) {
+		// the caller's variables map also has entries named like the metadata-backed variables
+		// (a map shared between scripts): the declarations say where their values come from
+		cs2.Vars["w"], cs2.Vars["d"], cs2.Vars["s"] = r.Pick("USD 7", "1/2", "-1", "world", ""), "not the decoy", "not the sibling"
+		c.Count("runs_with_variables_named_like_metadata_backed_ones", 1)
+	}
 	o2, ok := runCaseText(c, cs2)
 	if !ok {
 		return true
@@ -551,6 +560,10 @@ func roundTrip(c *fw.Ctx, r *rng.R, id string, i int) bool {
 	}
 	if od := o2.TxMeta["from_other_entry"]; od == nil || od.String() != decoy {
 		c.Violation("other-entry-read", fmt.Sprintf("meta(@%s, %q) holds %q but the variable reading it has the value %s", acct2, key2, decoy, valueSig(od)), input(ex))
+		return false
+	}
+	if sv := o2.TxMeta["from_sibling_key"]; sv == nil || sv.String() != "sibling value" {
+		c.Violation("sibling-key-read", fmt.Sprintf("meta(@%s, %q) holds %q but the variable reading it has the value %s", acct, key+"_sibling", "sibling value", valueSig(sv)), input(ex))
 		return false
 	}
 	c.Count("other_entries_read", 1)
